@@ -80,6 +80,11 @@ claimed = {
    text="Go's randomised map iteration is put behind a seam: the overlay rewrites every `range` over a map in the repository to iterate a key order the explorer chooses. For every enumerated case the complete error list (messages with suggestions, rules, locations, paths, extensions, order) must be identical under every order, and when the already validated tree is validated again. Three fresh processes of the un-instrumented build (native map order, fresh hash seeds) must reproduce the digest of the ascending-order execution over all profile documents and kit type systems, which shows the seam owns the nondeterminism.",
    note="Trusted: the instrumenter's map-range rewrite (every range over a map-typed expression; counted in instrument-stats.json). Nondeterminism from sources other than map order and hash seeds is only covered by the fresh-process comparison.",
    ref="DESIGN.md §4 C10"),
+ "C18": dict(
+   technique=T + "every profile document (~48k) and type-blind document ≤5/6 tokens × rule sets {default, explicit full list, reverse order, each of 27 standard rules alone, each of 4 without-suggestions variants} (thorough: every pair and every leave-one-out set on documents with errors); compositional oracle on error multisets evaluated on every execution",
+   text="Every enumerated document is validated, from a fresh parse each time, under each rule set. Oracle: the errors of the full set are the multiset union of the errors each rule reports alone, every error is tagged with the name of the rule that ran, each rule reports the same errors alone and inside the set, the default set equals the explicit list of all 27 standard rules (also in reverse order), each 'WithoutSuggestions' variant equals its standard rule with the ' Did you mean …?' suffix removed and never suggests; thorough: pairs and leave-one-out sets report exactly their members' errors.",
+   note="Trusted: the list of exported rules (compile-time references to validator/rules). Subsets beyond singletons, pairs, leave-one-out and the full set are not enumerated.",
+   ref="DESIGN.md §4 C18"),
 }
 checks = []
 for i in ids:
